@@ -465,10 +465,41 @@ func checkC06(c *Check) {
 	if f := P.Funcs["ddp_string_slice"]; f != nil {
 		clamped := map[string]int{}
 		var errLine, lastClamp int
+		// the two bounds are the function's last two parameters (whatever they are called); the clamp helper is recognised
+		// by what it does: three parameters, the first compared with the second by < and with the third by >
+		pn := cParamNames(f)
+		b1, b2 := "index1", "index2"
+		if len(pn) >= 2 {
+			b1, b2 = pn[len(pn)-2], pn[len(pn)-1]
+		}
+		isClamp := func(name string) bool {
+			g := P.Funcs[name]
+			if g == nil || g.Body == nil {
+				return false
+			}
+			gp := cParamNames(g)
+			if len(gp) != 3 {
+				return false
+			}
+			lo, hi := false, false
+			g.Body.walk(func(m *CNode) bool {
+				if m.Kind == "BinaryOperator" && len(m.Inner) == 2 {
+					l, rr := cstrip(m.Inner[0]).text(), cstrip(m.Inner[1]).text()
+					if (m.Opcode == "<" && rr == gp[1]) || (m.Opcode == ">" && l == gp[1]) {
+						lo = true
+					}
+					if (m.Opcode == ">" && rr == gp[2]) || (m.Opcode == "<" && l == gp[2]) {
+						hi = true
+					}
+				}
+				return true
+			})
+			return lo && hi
+		}
 		f.Body.walk(func(m *CNode) bool {
 			if m.Kind == "BinaryOperator" && m.Opcode == "=" && len(m.Inner) == 2 {
 				rhs := cstrip(m.Inner[1])
-				if rhs.Kind == "CallExpr" && rhs.calleeName() == "clamp" {
+				if rhs.Kind == "CallExpr" && isClamp(rhs.calleeName()) {
 					a := rhs.args()
 					lo, ok := cIntValue(a[1])
 					if ok && lo == 1 && cstrip(a[0]).text() == cstrip(m.Inner[0]).text() {
@@ -481,7 +512,7 @@ func checkC06(c *Check) {
 			}
 			if m.Kind == "IfStmt" && len(m.Inner) >= 2 {
 				cnd := cstrip(m.Inner[0])
-				if cnd.Kind == "BinaryOperator" && (cnd.Opcode == "<" || cnd.Opcode == ">") && strings.Contains(cnd.text(), "index1") && strings.Contains(cnd.text(), "index2") {
+				if cnd.Kind == "BinaryOperator" && (cnd.Opcode == "<" || cnd.Opcode == ">") && strings.Contains(cnd.text(), b1) && strings.Contains(cnd.text(), b2) {
 					if len(callsIn2(m.Inner[1], "ddp_runtime_error")) > 0 {
 						errLine = m.line
 					}
@@ -489,7 +520,7 @@ func checkC06(c *Check) {
 			}
 			return true
 		})
-		ok := clamped["index1"] > 0 && clamped["index2"] > 0 && errLine > lastClamp
+		ok := clamped[b1] > 0 && clamped[b2] > 0 && errLine > lastClamp
 		st := OK
 		if !ok {
 			st = Bad
@@ -508,7 +539,7 @@ func checkC06(c *Check) {
 		// the walk may live in a helper the function calls (one level): analyse the function that contains it
 		hasWalk := func(g *CFunc) bool {
 			for _, st := range g.Body.Inner {
-				if st.Kind == "WhileStmt" && len(callsIn2(st, "utf8_num_bytes")) > 0 {
+				if cIsLoop(st) && len(callsIn2(st, "utf8_num_bytes")) > 0 {
 					return true
 				}
 			}
@@ -535,12 +566,18 @@ func checkC06(c *Check) {
 			if st.Kind == "IfStmt" && len(callsIn2(st, "ddp_runtime_error")) > 0 {
 				early++
 			}
-			if st.Kind == "WhileStmt" && len(callsIn2(st, "utf8_num_bytes")) > 0 && i+1 < len(f.Body.Inner) {
+			if cIsLoop(st) && len(callsIn2(st, "utf8_num_bytes")) > 0 && i+1 < len(f.Body.Inner) {
 				nx := f.Body.Inner[i+1]
 				if nx.Kind == "IfStmt" && len(callsIn2(nx, "ddp_runtime_error")) > 0 {
-					cnd := cstrip(nx.Inner[0]).text()
-					if strings.Contains(cnd, "== 0") && strings.Contains(cnd, "->str[") {
-						okc = true
+					// the test reads the byte the walk stopped at and compares it with the terminator: `str->str[i] == 0` or,
+					// for a pointer walk, `*cur == 0`
+					if cn := cstrip(nx.Inner[0]); cn != nil && cn.Kind == "BinaryOperator" && cn.Opcode == "==" && len(cn.Inner) == 2 {
+						if k, isConst := cIntValue(cn.Inner[1]); isConst && k == 0 {
+							l := cstrip(cn.Inner[0])
+							if l != nil && (l.Kind == "ArraySubscriptExpr" || (l.Kind == "UnaryOperator" && l.Opcode == "*")) {
+								okc = true
+							}
+						}
 					}
 				}
 			}
@@ -731,4 +768,9 @@ func pickMsg(st Status, both string) string {
 		return parts[0]
 	}
 	return parts[1]
+}
+
+// cIsLoop: a while, for or do loop of the C syntax tree (the form of a loop is free)
+func cIsLoop(n *CNode) bool {
+	return n != nil && (n.Kind == "WhileStmt" || n.Kind == "ForStmt" || n.Kind == "DoStmt")
 }
